@@ -150,8 +150,47 @@ pub enum PartOutcome {
     Differ(String, String, Value, PartStats),
 }
 
+/// Which call boundaries are explored.
+#[derive(Clone, Debug)]
+pub enum Cuts {
+    /// every offset: decides all 2^(L-1) partitions
+    Full,
+    /// long streams: every call length up to 24, multiples of 61 and "the rest"
+    Sparse,
+    /// very long streams (large chunks): calls end only at the listed offsets (all subsets of them)
+    Marks(Vec<usize>),
+}
+
+impl From<bool> for Cuts {
+    fn from(full: bool) -> Cuts {
+        if full { Cuts::Full } else { Cuts::Sparse }
+    }
+}
+
+/// Offsets around every chunk of a (valid) stream: chunk start, one byte into the header, end of the header,
+/// one byte into the payload, the middle of the payload, one byte before the chunk ends.
+pub fn chunk_marks(stream: &[u8]) -> Vec<usize> {
+    let mut sp = crate::refmodel::chunk::SpecDecoder::new();
+    let _ = sp.push(stream);
+    let mut marks: Vec<usize> = Vec::new();
+    for c in sp.chunks.iter() {
+        let end = c.start + c.header_len + c.payload_len;
+        for m in [c.start, c.start + 1, c.start + c.header_len, c.start + c.header_len + 1, c.start + c.header_len + c.payload_len / 2, end.saturating_sub(1)] {
+            if m > 0 && m < stream.len() {
+                marks.push(m);
+            }
+        }
+    }
+    marks.sort();
+    marks.dedup();
+    marks
+}
+
 /// Builds the all-partitions graph of `stream` from `init`.
-pub fn partition_graph<C: Consumer>(init: &C, stream: &[u8], full: bool, mut tolerate_dropped: Option<&mut Option<(String, Value)>>) -> PartOutcome {
+pub fn partition_graph<C: Consumer, M: Into<Cuts>>(init: &C, stream: &[u8], full: M, mut tolerate_dropped: Option<&mut Option<(String, Value)>>) -> PartOutcome {
+    let cuts_mode: Cuts = full.into();
+    let full = matches!(cuts_mode, Cuts::Full);
+    let mark_set: Option<std::collections::BTreeSet<usize>> = match &cuts_mode { Cuts::Marks(m) => Some(m.iter().cloned().collect()), _ => None };
     let l = stream.len();
     let mut levels: Vec<HashMap<u128, Node<C>>> = (0..=l).map(|_| HashMap::new()).collect();
     let mut fp = Vec::new();
@@ -166,8 +205,12 @@ pub fn partition_graph<C: Consumer>(init: &C, stream: &[u8], full: bool, mut tol
             if node.errored {
                 continue;
             }
-            for k in 1..=(l - n) {
-                if !full {
+            let ks: Vec<usize> = match &mark_set {
+                Some(ms) => ms.range(n + 1..).map(|m| m - n).filter(|k| *k < l - n).chain(std::iter::once(l - n)).collect(),
+                None => (1..=(l - n)).collect(),
+            };
+            for k in ks {
+                if !full && mark_set.is_none() {
                     // long streams: every k up to 24, then strides, and always "the rest"
                     if !(k <= 24 || k == l - n || k % 61 == 0) {
                         continue;
@@ -314,6 +357,24 @@ fn lib_streams(thorough: bool) -> Vec<(String, Vec<u8>)> {
             }
             out.push((format!("library serializer, chunk size {}, messages {:?}", cs, seq.iter().map(|i| alpha[*i]).collect::<Vec<_>>()), bytes));
         }
+    }
+    out
+}
+
+/// Streams whose chunks are far larger than anything the exhaustive families use (thresholds such as 4 KiB or
+/// 64 KiB in buffering code): library-serialized, explored with call boundaries at marks around every chunk.
+fn large_chunk_streams(thorough: bool) -> Vec<(String, Vec<u8>)> {
+    let mut out = Vec::new();
+    let sizes: Vec<u32> = if thorough { vec![1_000, 4_096, 4_097, 5_000, 65_536, 70_000] } else { vec![4_097, 70_000] };
+    for cs in sizes {
+        let mut ser = ChunkSerializer::new();
+        let mut bytes = ser.set_max_chunk_size(cs, RtmpTimestamp::new(0)).unwrap().bytes;
+        let lens = [cs as usize * 5 / 2, 10, cs as usize + 1, cs as usize];
+        for (i, len) in lens.iter().enumerate() {
+            let p = MessagePayload { timestamp: RtmpTimestamp::new(40 * i as u32), type_id: if i == 1 { 8 } else { 9 }, message_stream_id: 1, data: Bytes::from(pattern(100 + i as u32, *len)) };
+            bytes.extend(ser.serialize(&p, false, false).unwrap().bytes);
+        }
+        out.push((format!("library serializer, chunk size {}, messages of {:?} bytes", cs, lens), bytes));
     }
     out
 }
@@ -574,6 +635,22 @@ pub fn run(run: &Run) {
         handle("deserializer", name, bytes, out);
     });
 
+    let large = large_chunk_streams(thorough);
+    run.set("large_chunk_streams", json!(large.len()));
+    large.par_iter().for_each(|(name, bytes)| {
+        let marks = chunk_marks(bytes);
+        run.count("large_chunk_call_boundaries", marks.len() as u64);
+        let init = DeCons { de: ChunkDeserializer::new() };
+        let out = partition_graph(&init, bytes, Cuts::Marks(marks.clone()), None);
+        handle("deserializer", name, bytes, out);
+        // the same bytes as the tail of a publishing server session and of a playing client session
+        // (message stream 1 / 5 respectively is only correct for the server; the client ignores or refuses alike)
+        let init = server_state(2);
+        let mut dropped = None;
+        let out = partition_graph(&init, bytes, Cuts::Marks(marks), Some(&mut dropped));
+        handle("server-session", &format!("server state publishing: {}", name), bytes, out);
+    });
+
     // ---- sessions ----
     let mut jobs: Vec<(String, String, Vec<u8>, u8, u8)> = Vec::new(); // family, name, bytes, side, kind
     for kind in 0..4u8 {
@@ -617,7 +694,7 @@ pub fn run(run: &Run) {
     run.set("transitions", json!(edges.load(Ordering::Relaxed)));
     run.set("traces_validated_against_impl", json!(edges.load(Ordering::Relaxed)));
     run.set("exhaustive", json!(false));
-    run.set("bound", json!("for every stream of <= 400 bytes (sessions: 360 quick / 700 thorough) ALL call lengths from ALL offsets (decides all 2^(L-1) partitions of that stream); longer streams: all call lengths <= 24, multiples of 61 and 'the rest'"));
+    run.set("bound", json!("for every stream of <= 400 bytes (sessions: 360 quick / 700 thorough) ALL call lengths from ALL offsets (decides all 2^(L-1) partitions of that stream); longer streams: all call lengths <= 24, multiples of 61 and 'the rest'; large-chunk streams (chunk sizes 4,097 and 70,000; thorough also 1,000/4,096/5,000/65,536): all subsets of six call boundaries around every chunk"));
     run.count("streams", streams.load(Ordering::Relaxed));
     run.count("streams_ending_in_an_error", errored.load(Ordering::Relaxed));
     run.count("stream_bytes", bytes_total.load(Ordering::Relaxed));
